@@ -170,7 +170,15 @@ impl Oplog {
                         get_slices_checked(&existing, OplogSlot::Entries as usize)?.1;
                     let mut entries: Vec<Entry> = Vec::new();
                     let mut partials: Vec<bool> = Vec::new();
+                    // Entries are written with the header bit that was current at the time. An
+                    // entry carrying the other bit is a leftover from before the latest header
+                    // write (a crash hit between that write and the truncation): it is already
+                    // contained in the header and ends the log.
+                    let current_header_bit = outcome.oplog.get_current_header_bit();
                     while let Some(entry_outcome) = Self::validate_leader(entries_buff)? {
+                        if entry_outcome.header_bit != current_header_bit {
+                            break;
+                        }
                         let res = Entry::decode(entry_outcome.state)?;
                         entries.push(res.0);
                         entries_buff = res.1;
